@@ -203,7 +203,9 @@ void runDamage(const Opts& o, long idx, CaseLog& log) {
         size_t np = 0; for (size_t g = 0; g < c->parameters().nbGroups(); ++g) np += c->parameters().group(g).nbParameters();
         size_t nf = c->data().nbFrames(); size_t walked = 0;
         for (size_t f = 0; f < nf && f < 3; ++f) { SFrame s = takeFrame(c->data().frame(f)); walked += s.pts.size(); }
-        log.line("RES %ld ok reads=%lu afterFail=%lu alloc=%lu frames=%zu params=%zu", idx, g_hook.reads, g_hook.readsAfterFail, g_hook.allocBytes, nf, np + walked * 0);
+        // digest of what the object exposes (bounded: small objects only), so that differential checks can compare results, not just outcomes
+        unsigned long long dg = 0; if (nf <= 64 && np <= 400) { try { dg = hashSnap(take(*c)); } catch (const std::exception&) { dg = 1; } }
+        log.line("RES %ld ok snap=%016llx reads=%lu afterFail=%lu alloc=%lu frames=%zu params=%zu", idx, dg, g_hook.reads, g_hook.readsAfterFail, g_hook.allocBytes, nf, np + walked * 0);
         log.pre("destroy"); c.reset();
     }
 }
